@@ -63,7 +63,12 @@ Narrow(A, r, res) ==
   IF Uncertain(res) THEN UNION {Iter(A, r, j) : j \in 0..(retry + 1)} \cup {None}
   ELSE IF MissOK(r, res) /\ Explaining(A, r, res) = {} THEN A
   \* after a fault the tiers may disagree about an unacknowledged write: a read does not settle it
+  \* ... and neither does a refusal: only a write or delete acknowledged as successful does (C10's wording)
   ELSE IF faulted /\ IsRead(r) /\ Explaining(A, r, res) # {} THEN A
+  \* (a refused write may have been applied to one tier all the same: its outcome becomes admissible too)
+  ELSE IF faulted /\ res = <<"fail">> /\ Explaining(A, r, res) # {} THEN A \cup After1(A, r)
+  \* a touch / get-and-touch gives every admissible entry the new expiry and rules none of them out
+  ELSE IF faulted /\ r.m \in {"touch", "gat"} /\ Explaining(A, r, res) # {} THEN After1(A, r)
   ELSE LET S == Explaining(A, r, res) IN IF S = {} THEN After1(A, r) ELSE After1(S, r)
 
 ReplyBad(A, r, res) == ~Uncertain(res) /\ ~MissOK(r, res) /\ Explaining(A, r, res) = {}
